@@ -71,6 +71,10 @@ where
                 options
                     .db
                     .remove_region_if_exists(&vec_region_name_with::<I>(options.name))?;
+                // The deleted-slot set belongs to the discarded data.
+                options
+                    .db
+                    .remove_region_if_exists(&Self::holes_region_name_with(options.name))?;
                 Self::import_with(options, format)
             }
             _ => res,
